@@ -109,7 +109,42 @@ class RoundTripStream(Stream):
         return [{'path': 'sqlite', 'policy': p, 'probes': probes, 'rxtable': [], 'shared': True},
                 {'path': 'json', 'policy': p, 'probes': probes, 'rxtable': [], 'shared': True}]
 
+    def deep(self):
+        """deeply nested rules and rule arguments (a serializer with a depth bound or a recursion limit shows here)"""
+        def chain(kind, d, leaf):
+            r = leaf
+            for _ in range(d):
+                r = ['Not', r] if kind == 'Not' else [kind, [r]]
+            return r
+
+        def nest(d):
+            v = [7]
+            for _ in range(d):
+                v = [v, 'x']
+            return v
+        for path in PATHS:
+            for d in (6, 17, 36):
+                base = {'uid': 'deep', 'effect': 'allow', 'subjects': [['s', 'Max']], 'resources': [['s', 'r']],
+                        'actions': [['s', 'a']], 'context': [], 'description': None, 'tags': ['<', '>']}
+                inq = {'resource': 'r', 'action': 'a', 'subject': 'Max', 'context': None}
+                for kind in ('Not', 'And', 'Or'):
+                    leaf = ['Eq', 1]
+                    p = dict(base, subjects=[['r', chain(kind, d, leaf)]], resources=[['r', ['Any']]],
+                             actions=[['d', [['k', chain(kind, d // 2, ['Eq', 'a'])]]]])
+                    probes = [dict(inq, subject=1, action={'D': [['k', 'a']]}), dict(inq, subject=2, action={'D': [['k', 'a']]}),
+                              dict(inq, subject=1, action={'D': [['k', 'b']]})]
+                    yield {'path': path, 'policy': p, 'probes': probes, 'rxtable': [], 'shared': False}
+                deepv = nest(d)
+                p = dict(base, subjects=[['r', ['Any']]], actions=[['r', ['Any']]],
+                         resources=[['r', ['NotEq', specs.jv(deepv)]]], context=[['c', ['Eq', specs.jv(deepv)]]])
+                probes = [dict(inq, resource=specs.jv(deepv), context={'D': [['c', specs.jv(deepv)]]}),
+                          dict(inq, resource=specs.jv(nest(d - 1)), context={'D': [['c', specs.jv(deepv)]]}),
+                          dict(inq, resource='z', context={'D': [['c', specs.jv(nest(d - 1))]]})]
+                yield {'path': path, 'policy': p, 'probes': probes, 'rxtable': [], 'shared': False}
+
     def generate(self, rng, tier):
+        for c in self.deep():
+            yield c
         n = 900 if tier == 'quick' else 9000
         for i in range(n):
             path = PATHS[i % len(PATHS)]
